@@ -22,8 +22,15 @@ def main():
     if hasattr(mod, 'decode_args'):
         args = mod.decode_args(args)
     ns.update(args)
+    repeat = int(rq.get('repeat', 1))
     try:
-        reached = eval(rq['call'], ns)
+        for k in range(repeat):
+            try:
+                reached = eval(rq['call'], ns)
+            except Violation as e:
+                if k == 0:
+                    raise
+                raise Violation('only after %d earlier call(s) in the same process (state kept between calls): %s' % (k, e))
         out = dict(outcome='ok', reached=bool(reached), detail='')
     except Violation as e:
         out = dict(outcome='violation', detail=str(e)[:2000])
